@@ -9,7 +9,9 @@
     validateRepeat    cubed/array_api/manipulation_functions.py : repeat
     validateConcat    … : concat          (non-empty, validate_axis, shapes, chunk sizes along the axis)
     validateStack     … : stack           (non-empty, validate_axis — nothing else: the two TODOs)
-    validateRegion    cubed/core/ops.py : _store_array (region branch: alignment test, region shape test)
+    validateRegion    cubed/core/ops.py : _store_array (shape test of the whole-array branch; region branch: unit steps,
+                      slice.indices normalisation, alignment, region shape, rechunk of the source to the target chunks);
+                      validateRegionOld = the code before the fix: commits d416aac / ba97b91
     validateQr        cubed/array_api/linalg.py : qr
     validateReduce    cubed/core/ops.py : reduction / _normalize_split_every
     validateBroadcastTo, validateRoll, validatePermute, validateMoveaxis   (manipulation_functions.py)
@@ -23,7 +25,7 @@
     prKeys            partial_reduce.back_key_function           range(bi*k, min((bi+1)*k, nb))
     repeatKey         repeat.back_key_function                   bi // repeats
     bisect / arraySlices / concatKeys     concat.back_key_function, _array_slices
-    regionOutBlocks / regionKey           _store_array.back_key_function  (bi - off) over the indexer's blocks
+    regionOutBlocksN / regionKeyN         _store_array.back_key_function  (bi - off) over the indexer's blocks
     scanIncKey / scanIncSlot              scan.back_key_function (bi // split_every), _scan_binop (bi % split_every)
     stackKey          stack.back_key_function
     sliceBlocks       the chunk coordinates a zarr OrthogonalIndexer yields for a unit-step slice
@@ -298,15 +300,17 @@ def RegionP.stp (p : RegionP) : Nat := p.step.getD 1
 /-- number of selected elements (`indexer.shape`): `len(range(lo, hi, step))`. -/
 def RegionP.selLen (p : RegionP) : Nat := (p.hi - p.lo + p.stp - 1) / p.stp
 
-def regionAligned (p : RegionP) : Bool :=
+/-! ### the unrepaired variant (before the `fix:` commits d416aac / ba97b91), kept for the old witnesses -/
+
+def regionAlignedOld (p : RegionP) : Bool :=
   !((match p.start with | some s => s % p.tgtChunk != 0 | none => false) ||
     (match p.stop with | some e => e % p.tgtChunk != 0 && e != p.tgtLen | none => false))
 
-/-- `_store_array` with a region, non-negative slices with step ≥ 1.  A region made of `slice(None)` only takes the
-whole-array branch, which checks nothing. -/
-def validateRegion (p : RegionP) : Res :=
+/-- OLD `_store_array` with a region: alignment on the raw bounds, region shape; steps and the source chunking were
+not looked at, and a region made of `slice(None)` only took the whole-array branch, which checked nothing. -/
+def validateRegionOld (p : RegionP) : Res :=
   if p.start.isNone && p.stop.isNone && p.step.isNone then .ok ()
-  else if !regionAligned p then .error .ValueError
+  else if !regionAlignedOld p then .error .ValueError
   else if p.srcLen ≠ p.selLen then .error .ValueError
   else .ok ()
 
@@ -321,11 +325,49 @@ def regionKey (p : RegionP) (bi : Nat) : Int := (bi : Int) - ((p.start.getD 0) /
 def regionBlockLen (p : RegionP) (bi : Nat) : Nat :=
   ((List.range p.selLen).filter (fun q => (p.lo + q * p.stp) / p.tgtChunk == bi)).length
 
-/-- the task for target block `bi` reads an existing source block whose shape is the region's share of `bi`. -/
-def regionTaskOk (p : RegionP) (bi : Nat) : Bool :=
+/-- OLD: the task for target block `bi` reads an existing source block (source chunked as the caller left it) whose
+shape is the region's share of `bi`. -/
+def regionTaskOkOld (p : RegionP) (bi : Nat) : Bool :=
   let k := regionKey p bi
   0 ≤ k && k.toNat < nblocks p.srcLen p.srcChunk &&
     blockLen p.srcLen p.srcChunk k.toNat == regionBlockLen p bi
+
+/-! ### the repaired code -/
+
+/-- `slice.indices(n)[:2]` for non-negative bounds: both clipped to the target length. -/
+def RegionP.nlo (p : RegionP) : Nat := min (p.start.getD 0) p.tgtLen
+def RegionP.nhi (p : RegionP) : Nat := min (p.stop.getD p.tgtLen) p.tgtLen
+
+/-- `_store_array` now: no region (or `slice(None)` only) -> the shapes must agree; a region must have unit steps,
+is normalised with `slice.indices`, must be aligned with the target chunks and have the source's shape. -/
+def validateRegion (p : RegionP) : Res :=
+  if p.start.isNone && p.stop.isNone && p.step.isNone then
+    (if p.srcLen ≠ p.tgtLen then .error .ValueError else .ok ())
+  else if !(p.step == none || p.step == some 1) then .error .ValueError
+  else if p.nlo % p.tgtChunk ≠ 0 || (p.nhi % p.tgtChunk ≠ 0 && p.nhi ≠ p.tgtLen) then .error .ValueError
+  else if p.srcLen ≠ p.nhi - p.nlo then .error .ValueError
+  else .ok ()
+
+/-- chunk size of the source after `source.rechunk(region_chunksize)`:
+`to_chunksize(normalize_chunks(target.chunks, source.shape))`. -/
+def RegionP.effChunk (p : RegionP) : Nat := max (min p.tgtChunk p.srcLen) 1
+
+/-- key of the repaired code: the offset is taken from the normalised start. -/
+def regionKeyN (p : RegionP) (bi : Nat) : Int := (bi : Int) - (p.nlo / p.tgtChunk : Nat)
+
+/-- the part of target block `bi` that lies in the (unit-step) region `[nlo, nhi)`. -/
+def regionShare (p : RegionP) (bi : Nat) : Nat :=
+  min p.nhi ((bi + 1) * p.tgtChunk) - max p.nlo (bi * p.tgtChunk)
+
+/-- the task for target block `bi` reads an existing block of the rechunked source with the shape of that share. -/
+def regionTaskOk (p : RegionP) (bi : Nat) : Bool :=
+  let k := regionKeyN p bi
+  0 ≤ k && k.toNat < nblocks p.srcLen p.effChunk &&
+    blockLen p.srcLen p.effChunk k.toNat == regionShare p bi
+
+/-- target blocks visited for the unit-step region. -/
+def regionOutBlocksN (p : RegionP) : List Nat :=
+  if p.nlo < p.nhi then List.range' (p.nlo / p.tgtChunk) ((p.nhi - 1) / p.tgtChunk + 1 - p.nlo / p.tgtChunk) else []
 
 /-! ## qr -/
 
@@ -458,6 +500,9 @@ def mapBlocksExpr (p : MapBlocksP) : Except ErrKind Bw.Expr :=
     match p.newAxis, p.chunksLen with
     | none, some cl => if outInd1.length < cl then some (List.range (cl - outInd1.length)) else none
     | na, _ => na
+  -- `new_axes[n] = chunks[ax]` inside the loop: Python IndexError when `ax` is beyond the given chunks
+  if (match p.chunksLen with | some cl => (newAxis.getD []).any (fun ax => ax ≥ cl) | none => false) then
+    .error .IndexError else
   let step := (isort (newAxis.getD [])).foldl
     (fun (acc : List Nat × List (Nat × Nat)) ax =>
       let n := acc.1.length + drops.length
